@@ -34,6 +34,7 @@ type C05Case struct {
 	UnionWin bool              `json:"union_win,omitempty"` // also run (ordered window) UNION ALL (window of the reversed order): each arm is its own sequence
 	Big      *BigKey           `json:"big,omitempty"`       // one key column handed over as native integers far beyond 2^53 (order-isomorphic to the small values in doc)
 	Scale    *Scale            `json:"scale,omitempty"`     // large table: t is expanded from the rows of the document by this recipe (first sort key spread over many values) before anything is computed
+	NulTails bool              `json:"nul_tails,omitempty"` // no WHERE: every second row gets a NUL byte appended to the text in its first sort key ("ab" < "ab\x00" < "ab\x00\x00" byte-wise)
 	NullAt   []int             `json:"null_at,omitempty"`   // with Scale, a single sort key and no WHERE: the expanded rows at these positions hold NULL in the key column
 	Stretch  bool              `json:"stretch,omitempty"`   // with Scale: LIMIT and OFFSET are stretched by the same factor as the table
 	GoTypes  map[string]string `json:"go_types,omitempty"`  // numeric columns handed over as native Go values of that type // SELECT DISTINCT: the window applies to the de-duplicated sequence
@@ -235,6 +236,7 @@ func genC05(t *rapid.T) any {
 			}
 			c.Scale = sc
 			c.Stretch = rapid.Bool().Draw(t, "scale.stretch")
+			c.NulTails = c.Where == nil && rapid.Bool().Draw(t, "scale.nultails")
 			if len(c.Keys) == 1 && c.Where == nil && rapid.Bool().Draw(t, "scale.nullhead") {
 				// NULL keys among the very first rows of a large table (they belong behind every other row)
 				c.NullAt = rapid.SliceOfN(rapid.IntRange(0, 7), 1, 3).Draw(t, "scale.nullat")
@@ -372,6 +374,29 @@ func checkC05(c *C05Case) Result {
 		}
 		res = checkC05(&cc)
 		res.Labels = append(res.Labels, "large-table")
+		return res
+	}
+	if c.NulTails && c.Where == nil && len(c.Keys) > 0 {
+		cc := *c
+		cc.NulTails = false
+		src := c.Keys[0].Col
+		for i, a := range c.Alias {
+			if a == src && i < len(c.Cols) {
+				src = c.Cols[i]
+				break
+			}
+		}
+		cc.Doc = val.CopyMap(c.Doc)
+		rows, _ := cc.Doc["t"].([]any)
+		for i, r := range rows {
+			if rm, ok := r.(map[string]any); ok {
+				if s, ok := rm[src].(string); ok && i%2 == 1 {
+					rm[src] = s + strings.Repeat("\x00", 1+i%4/3)
+				}
+			}
+		}
+		res = checkC05(&cc)
+		res.Labels = append(res.Labels, "nul-tails")
 		return res
 	}
 	rows, _ := c.Doc["t"].([]any)
